@@ -30,3 +30,29 @@ brk("C12", "dead-strict", "R12.4", [("core/new_sequence.py", "        if not sel
 brk("C12", "stop-guard-inverted", "R12.7", [("core/new_sequence.py", 'if not include_stop and "*" in pep:', 'if include_stop and "*" in pep:')], names="stop guard")
 twin("C12", "guard-respelled", [("core/alignment.py", "        if trim_stop and not include_stop:\n            seqs = self.trim_stop_codons(gc=gc, strict=not incomplete_ok)\n        else:\n            seqs = self", "        if include_stop or not trim_stop:\n            seqs = self\n        else:\n            seqs = self.trim_stop_codons(gc=gc, strict=not incomplete_ok)")])
 twin("C12", "table-as-tuple", [("core/genetic_code.py", 'IUPAC_DNA_chars', 'IUPAC_DNA_chars')] if False else [("core/moltype.py", 'IUPAC_DNA_chars = ["T", "C", "A", "G"]', 'IUPAC_DNA_chars = list("TCAG")')])
+
+# revert of the repo fix 63a159b8f
+brk("C12", "aln-drop-trim-forward", "R12.6", [("core/alignment.py", "                include_stop=include_stop,\n                trim_stop=trim_stop,\n            )\n            translated.append((seqname, pep))\n        kwargs[\"moltype\"] = pep.moltype\n        return self.__class__(translated, info=self.info, **kwargs)\n\n\ndef _one_length", "                include_stop=include_stop,\n            )\n            translated.append((seqname, pep))\n        kwargs[\"moltype\"] = pep.moltype\n        return self.__class__(translated, info=self.info, **kwargs)\n\n\ndef _one_length")], names="AlignmentI.get_translation")
+
+# ---------------------------------------------------------------- C17
+brk("C17", "overlap-ge", "R17.1", [("core/annotation_db.py", 'f"(start <= {start} AND stop > {start})",  # straddles beginning', 'f"(start <= {start} AND stop >= {start})",  # straddles beginning')], names="partial")
+brk("C17", "within-strict", "R17.1", [("core/annotation_db.py", 'cond = f"start >= {start} AND stop <= {stop}"', 'cond = f"start >= {start} AND stop < {stop}"')], names="within")
+brk("C17", "drop-straddle-stop", "R17.1", [("core/annotation_db.py", '                f"(start < {stop} AND stop >= {stop})",  # straddles stop of segment\n', '')], names="partial")
+brk("C17", "only-start-closed", "R17.1", [("core/annotation_db.py", 'cond = f"(start <= {start} AND {start} < stop)"', 'cond = f"(start <= {start} AND {start} <= stop)"')], names="only-start")
+brk("C17", "empty-conds-revert", "R17.1", [("core/annotation_db.py", '        if conds:\n            sql.append(" AND ".join(conds))', '        sql.append(" AND ".join(conds))')], names="None-valued")
+brk("C17", "allow-partial-dropped", "R17.2", [("core/annotation_db.py", "    where, vals = _matching_conditions(\n        conditions=conditions, allow_partial=allow_partial\n    )\n    columns =", "    where, vals = _matching_conditions(conditions=conditions)\n    columns =")], names="_select_records_sql")
+brk("C17", "allow-partial-not-forwarded", "R17.2", [("core/annotation_db.py", "            columns=columns,\n            allow_partial=allow_partial,\n        )\n        yield from", "            columns=columns,\n        )\n        yield from")], names="_get_records_matching")
+brk("C17", "update-spans-only", "R17.3", [("core/annotation_db.py", 'cmnd="UPDATE gff SET spans = ?, start = ?, stop = ? WHERE name = ?",\n            values=(old_spans, int(old_spans.min()), int(old_spans.max()), name),', 'cmnd="UPDATE gff SET spans = ? WHERE name = ?",\n            values=(old_spans, name),')], names="update_record_spans")
+brk("C17", "gb-stop-from-min", "R17.3", [("core/annotation_db.py", 'store["stop"] = int(store["spans"].max())', 'store["stop"] = int(store["spans"].min())')], names="GenbankAnnotationDb.add_records")
+brk("C17", "gff-start-dropped", "R17.3", [("core/annotation_db.py", '            record["start"] = int(spans.min())\n', '')], names="GffAnnotationDb.add_records")
+brk("C17", "gff-off-by-one", "R17.4", [("parse/gff.py", "start, end = int(start) - 1, int(end)", "start, end = int(start), int(end)")], names="start offset")
+brk("C17", "gb-stop-closed", "R17.4", [("parse/genbank.py", "return sorted((i.start, i.stop + 1) for i in self)", "return sorted((i.start, i.stop) for i in self)")], names="get_coordinates")
+brk("C17", "gb-start-1based", "R17.4", [("parse/genbank.py", '        """Returns first base self could be."""\n        try:\n            return int(self._data) - 1', '        """Returns first base self could be."""\n        try:\n            return int(self._data)')], names="Location.start")
+twin("C17", "overlap-canonical", [("core/annotation_db.py", '''            cond = [
+                f"(start >= {start} AND stop <= {stop})",  # lies within the segment
+                f"(start <= {start} AND stop > {start})",  # straddles beginning of segment
+                f"(start < {stop} AND stop >= {stop})",  # straddles stop of segment
+                f"(start <= {start} AND stop >= {stop})",  # includes segment
+            ]
+            cond = " OR ".join(cond)''', '''            cond = f"start < {stop} AND stop > {start}"''')])
+twin("C17", "gff-offset-respelled", [("parse/gff.py", "start, end = int(start) - 1, int(end)", "start = int(start)\n        end = int(end)\n        start = start - 1")])
